@@ -21,6 +21,8 @@ type World struct {
 	units      map[string]*Unit
 	FieldNames map[*types.Var]string // struct field -> "pkg.Type.Field"
 	consts     map[string]string     // "pkgname.Const" -> exact value
+	Vocab      VocabSnapshot         // local signatures recorded when the rule tables were written (nil: none)
+	Renamed    []string              // renamed locals recognised in this run
 }
 
 // Unit is one analysable function body: a declaration or a function literal inside one.
@@ -124,7 +126,11 @@ func (w *World) build(name string, fn *load.Func, lit *ast.FuncLit, recv *ast.Fi
 	info := fn.Pkg.TypesInfo
 	u := &Unit{W: w, Name: name, Fn: fn, Lit: lit, Body: body, Type: ft, pc: map[*flow.Block]*flow.F{}}
 	u.G = flow.Build(body, w.noReturn(info))
-	u.C = flow.NewCanon(info, fn.Pkg.Types, recv, ft, body, outer)
+	var alias map[types.Object]string
+	if outer == nil && w.Vocab != nil {
+		alias = w.aliasesFor(name, info, body)
+	}
+	u.C = flow.NewCanonAliased(info, fn.Pkg.Types, recv, ft, body, outer, alias)
 	u.Sites = flow.CollectSites(u.G, info)
 	return u
 }
@@ -378,3 +384,15 @@ func SortedKeys[V any](m map[string]V) []string {
 
 // Site is re-exported for rule tables.
 type Site = flow.Site
+
+// UnitNames lists the declared functions analysed so far.
+func (w *World) UnitNames() []string {
+	var out []string
+	for n, u := range w.units {
+		if u.Lit == nil {
+			out = append(out, n)
+		}
+	}
+	sort.Strings(out)
+	return out
+}
